@@ -6,5 +6,6 @@ git -C /repo diff --quiet || { echo "/repo not clean"; exit 2; }
 git -C /repo apply /verif/seeded/$ID/patch.diff || exit 2
 ./check "$@" > /tmp/seedrun_$ID.log 2>&1; RC=$?
 git -C /repo checkout -- .
+git -C /verif checkout -- evidence 2>/dev/null   # evidence written against a mutated tree is not evidence
 echo "exit=$RC"; grep -E "^VIOLATION|^KNOWN|HARNESS|^C[0-9]+ " /tmp/seedrun_$ID.log | head -8 | cut -c1-260
 grep -A1 "^VIOLATION" /tmp/seedrun_$ID.log | grep "unit=" | head -3 | cut -c1-400
